@@ -79,7 +79,10 @@ def st4_band_integrated_saturation(
                     - radian_direction[direction_index]
                     + np.pi
                 ) % (2 * np.pi) - np.pi
-                if np.abs(mutual_angle) > integration_width_radians:
+                # A bin that lies exactly on the edge of the integration window is
+                # included; the small tolerance ensures this does not depend on
+                # rounding in the wrapped angle (and hence on the orientation).
+                if np.abs(mutual_angle) > integration_width_radians + 1e-9:
                     continue
 
                 integrant += (
